@@ -162,9 +162,9 @@ pub enum Verdict {
     WrongLocation,
 }
 
-/// Compare one lane of one configuration against the expectation. Locations are compared by
-/// start/end *line* and only in the token-per-line layout.
-pub fn judge(exp: &Expect, obs: &Observed, layout: Layout) -> Option<Verdict> {
+/// Compare one lane of one configuration against the expectation. Locations are compared (start and
+/// end, line and column) only in the token-per-line layout, where they identify the failing node.
+pub fn judge(exp: &Expect, obs: &Observed, layout: Layout, toks: &[String]) -> Option<Verdict> {
     match (exp, obs) {
         (Expect::Skip(_), _) => None,
         (Expect::Value(v), Observed::Value(Some(o), _)) => Some(if v == o { Verdict::Agree } else { Verdict::WrongValue }),
@@ -178,8 +178,15 @@ pub fn judge(exp: &Expect, obs: &Observed, layout: Layout) -> Option<Verdict> {
             if layout != Layout::TokenPerLine {
                 return Some(Verdict::Agree);
             }
+            // token-per-line layout: token i stands alone on line i + 1 behind one blank, so the node's
+            // location starts at column 1 of its first token's line and ends right behind its last token
             let ok = alts.iter().any(|(r, sp)| {
-                r.code() == *reason && sp.0 != u32::MAX && print::line_of_token(sp.0) == start.0 && print::line_of_token(sp.1) == end.0
+                r.code() == *reason
+                    && sp.0 != u32::MAX
+                    && print::line_of_token(sp.0) == start.0
+                    && print::line_of_token(sp.1) == end.0
+                    && start.1 == 1
+                    && toks.get(sp.1 as usize).map(|t| end.1 as usize == 1 + t.chars().count()).unwrap_or(false)
             });
             Some(if ok { Verdict::Agree } else { Verdict::WrongLocation })
         }
@@ -299,7 +306,7 @@ pub fn run_batch(prog: &Program, pr: &Printed, c: &Compiled, arg_tuples: &[Vec<V
         st.judged += 1;
         for (ci, out) in outs.iter().enumerate() {
             let obs = observe(out, l, &main.ret, defs);
-            let v = judge(&exp, &obs, pr.layout).unwrap();
+            let v = judge(&exp, &obs, pr.layout, &pr.toks).unwrap();
             if v != Verdict::Agree {
                 mismatches.push(Mismatch {
                     config: CONFIGS[ci],
